@@ -1161,8 +1161,11 @@ class MyPyAstVisitor:
             if type_name in {"int", "str", "bool", "float"}:
                 return sds_types.NamedType(name=type_name, qname=mypy_type.type.fullname)
 
+            # A class of the package can have the same name as a builtin, e.g. "Mapping" without type arguments
+            is_builtin = mypy_type.type.fullname.rpartition(".")[0] in {"builtins", "typing", "collections.abc"}
+
             # Iterable builtins
-            elif type_name in {"tuple", "list", "set", "Sequence", "Collection"}:
+            if is_builtin and type_name in {"tuple", "list", "set", "Sequence", "Collection"}:
                 types = [self.mypy_type_to_abstract_type(arg) for arg in mypy_type.args]
                 match type_name:
                     case "tuple":
@@ -1176,7 +1179,7 @@ class MyPyAstVisitor:
                     case "Collection":
                         return sds_types.ListType(types=types)
 
-            elif type_name in {"dict", "Mapping"}:
+            elif is_builtin and type_name in {"dict", "Mapping"}:
                 return sds_types.DictType(
                     key_type=self.mypy_type_to_abstract_type(mypy_type.args[0]),
                     value_type=self.mypy_type_to_abstract_type(mypy_type.args[1]),
